@@ -240,19 +240,32 @@ Print Assumptions C06_response_local_addresses.
 (** ** Letter case (round 2)
 
     [normalize] lower-cases the domain first, for every kind of entry (the
-    "A" / "AAAA" exceptions included): entries that differ only in the ASCII
-    letter case of the domain normalise to the same entry, so every theorem
-    above, stated on normalised tables, holds for every spelling. *)
+    "A" / "AAAA" exceptions included), and the answer when it is a canonical
+    name: entries that differ only in the ASCII letter case of the domain
+    (and, for CNAME entries, of the canonical name) normalise to the same
+    entry, so every theorem above, stated on normalised tables, holds for
+    every spelling. *)
 Theorem C06_normalize_case_insensitive :
   (forall r, e_dom (normalize r) = to_lower (w_dom r)) /\
+  (forall r, e_ans (normalize r) =
+             if is_cname (normalize r) then to_lower (w_ans r) else w_ans r) /\
   (forall r r', to_lower (w_dom r) = to_lower (w_dom r') -> w_ans r = w_ans r' ->
                 w_parse r = w_parse r' -> normalize r = normalize r') /\
-  (forall raws raws',
-     Forall2 (fun r r' => to_lower (w_dom r) = to_lower (w_dom r') /\ w_ans r = w_ans r' /\
-                          w_parse r = w_parse r') raws raws' ->
-     map normalize raws = map normalize raws').
-Proof. exact (conj normalize_dom (conj normalize_case_insensitive normalize_table_case_insensitive)). Qed.
+  (forall r r',
+     (w_parse r = None /\ w_ans r <> ans_A /\ w_ans r <> ans_AAAA) ->
+     (w_parse r' = None /\ w_ans r' <> ans_A /\ w_ans r' <> ans_AAAA) ->
+     to_lower (w_dom r) = to_lower (w_dom r') -> to_lower (w_ans r) = to_lower (w_ans r') ->
+     normalize r = normalize r').
+Proof.
+  exact (conj normalize_dom (conj normalize_ans
+          (conj normalize_case_insensitive normalize_cname_case_insensitive))).
+Qed.
 Print Assumptions C06_normalize_case_insensitive.
+
+Theorem C06_normalize_table_case_insensitive :
+  forall raws raws', Forall2 same_raw raws raws' -> map normalize raws = map normalize raws'.
+Proof. exact normalize_table_case_insensitive. Qed.
+Print Assumptions C06_normalize_table_case_insensitive.
 
 (** The spelling of the queried name does not matter either. *)
 Theorem C06_query_case_insensitive :
@@ -276,30 +289,19 @@ Theorem C06_exceptions_case_insensitive :
 Proof. exact type_exception_any_case. Qed.
 Print Assumptions C06_exceptions_case_insensitive.
 
-(** "Name -> name": the domain in any letter case, the answer in lower case. *)
-Theorem C06_exceptions_self_domain_case :
+(** "Name -> name" with domain and answer typed in any letter case (all
+    CNAME entries for exactly this name pointing at the name itself, in any
+    letter case) passes every query for the name on. *)
+Theorem C06_exceptions_self_case_insensitive :
   forall sort, (forall l, Permutation (sort l) l) -> (forall l, sorted_by_compare (sort l)) ->
   forall enabled raws host qt x,
-    In x raws -> to_lower (w_dom x) = to_lower host -> w_ans x = to_lower host ->
+    In x raws -> to_lower (w_dom x) = to_lower host -> to_lower (w_ans x) = to_lower host ->
     is_cname (normalize x) = true ->
-    (forall e, In e (map normalize raws) -> e_dom e = to_lower host -> is_cname e = true ->
-               e_ans e = to_lower host) ->
+    (forall y, In y raws -> to_lower (w_dom y) = to_lower host -> is_cname (normalize y) = true ->
+               to_lower (w_ans y) = to_lower host) ->
     check_host sort enabled (map normalize raws) host qt = Some empty_result.
-Proof. exact self_exception_any_case_domain. Qed.
-Print Assumptions C06_exceptions_self_domain_case.
-
-(** REFUTED for the code as it is: the answer is not lower-cased, so an entry
-    typed identically on both sides with capitals ("Pass.Host.test ->
-    Pass.Host.test" beside "*.host.test -> 1.2.3.4") is not an exception. *)
-Theorem C06_exceptions_self_answer_case_refuted :
-  exists raws host qt x,
-    In x raws /\ w_ans x = w_dom x /\ to_lower (w_dom x) = to_lower host /\
-    is_cname (normalize x) = true /\
-    (forall e, In e (map normalize raws) -> e_dom e = to_lower host -> is_cname e = true ->
-               to_lower (e_ans e) = to_lower host) /\
-    check_host isort true (map normalize raws) host qt <> Some empty_result.
-Proof. exact self_exception_answer_case_witness. Qed.
-Print Assumptions C06_exceptions_self_answer_case_refuted.
+Proof. exact self_exception_any_case_raw. Qed.
+Print Assumptions C06_exceptions_self_case_insensitive.
 
 (** ** Response side, every upstream reply (round 2) *)
 
@@ -340,32 +342,24 @@ Proof. exact respond_cname_via_upstream_any_reply. Qed.
 Print Assumptions C06_cname_via_upstream_negative.
 
 (** An upstream whose exchange may fail ([None]): [respond_e] agrees with
-    [respond] when it does not fail; when the handler does not fail the
-    question is the original one; it fails only because the one exchange
-    failed, and then a SERVFAIL for the name that was asked is sent. *)
+    [respond] when it does not fail; the message that is sent carries the
+    original question also when the handler fails; it fails only because the
+    one exchange failed, and then with a SERVFAIL without records. *)
 Theorem C06_response_failing_upstream :
   forall sort, (forall l, Permutation (sort l) l) ->
   (forall upstream enabled tbl qname qt,
      respond_e sort (fun n t => Some (upstream n t)) enabled tbl qname qt =
      option_map (fun p => (false, p)) (respond sort upstream enabled tbl qname qt)) /\
   (forall upstream enabled tbl qname qt, respond_e sort upstream enabled tbl qname qt <> None) /\
-  (forall upstream enabled tbl qname qt p,
-     respond_e sort upstream enabled tbl qname qt = Some (false, p) -> rp_qname p = qname) /\
+  (forall upstream enabled tbl qname qt failed p,
+     respond_e sort upstream enabled tbl qname qt = Some (failed, p) -> rp_qname p = qname) /\
   (forall upstream enabled tbl qname qt p,
      respond_e sort upstream enabled tbl qname qt = Some (true, p) ->
      exists n, rp_upstream p = [(n, qt)] /\ upstream n qt = None /\
-               rp_qname p = n /\ rp_rcode p = rcode_servfail /\ rp_answer p = []).
+               rp_rcode p = rcode_servfail /\ rp_answer p = []).
 Proof.
   exact (fun sort H => conj (respond_e_no_error sort)
           (conj (respond_e_terminates sort H)
             (conj (respond_e_question sort) (respond_e_failed_only_by_upstream sort)))).
 Qed.
 Print Assumptions C06_response_failing_upstream.
-
-(** REFUTED for the code as it is: when the exchange for the canonical name
-    fails, the SERVFAIL that is sent carries the canonical name as question. *)
-Theorem C06_question_on_upstream_error_refuted :
-  exists upstream tbl qname qt p,
-    respond_e isort upstream true tbl qname qt = Some (true, p) /\ rp_qname p <> qname.
-Proof. exact question_on_upstream_error_witness. Qed.
-Print Assumptions C06_question_on_upstream_error_refuted.
